@@ -7,7 +7,7 @@ package doctransformer
 // what the metadata builder needs of a resolution model handed in by the caller (an object built by
 // the applier / the operation processor, not something derived from untrusted bytes)
 //@ spec func wfModel(rm *protocol.ResolutionModel) bool = rm != nil ==>
-//@     (forall i int :: 0 <= i && i < len(rm.PublishedOperations) ==> rm.PublishedOperations[i] != nil) &&
+//@     (forall i int :: 0 <= i && i < len(rm.PublishedOperations) ==> rm.PublishedOperations[i] != nil && allocated(rm.PublishedOperations[i])) &&
 //@     (forall i int :: 0 <= i && i < len(rm.UnpublishedOperations) ==> rm.UnpublishedOperations[i] != nil && allocated(rm.UnpublishedOperations[i])) &&
 //@     (!sameArray(rm.PublishedOperations, rm.UnpublishedOperations) || len(rm.PublishedOperations) == 0 || len(rm.UnpublishedOperations) == 0)
 //@ spec func wfInfo(info protocol.TransformationInfo) bool = info != nil && has(info, "published") ==> typeis(info["published"], bool)
